@@ -24,27 +24,41 @@ func longID(last string) []byte {
 
 var longIDs = [][]byte{longID("1"), longID("2"), []byte("billing-service-production-eu-west-1-reader")}
 
+// caseIDs: identities that differ only in letter case (client ids are case-sensitive byte strings;
+// anything that folds case - a normalised path, a case-insensitive comparison - merges them).
+var caseIDs = [][]byte{[]byte("billing-service"), []byte("Billing-Service"), []byte("BILLING-SERVICE")}
+
+var idSets = map[string][][]byte{"long": longIDs, "case": caseIDs}
+
 func phaseLongIdentities(r *ev.Run, k *checker, all []envl.Revealer, controls *int, strictPub bool) {
-	saved := ids
-	ids, idSet = longIDs, "long"
-	defer func() { ids, idSet = saved, "" }()
-	if len(ids[0]) != 120 || len(ids[1]) != 120 {
-		ev.Fatalf("long identities are %d / %d bytes", len(ids[0]), len(ids[1]))
+	if len(longIDs[0]) != 120 || len(longIDs[1]) != 120 {
+		ev.Fatalf("long identities are %d / %d bytes", len(longIDs[0]), len(longIDs[1]))
 	}
+	for _, set := range []string{"long", "case"} {
+		phaseIdentitySet(r, k, all, controls, strictPub, set)
+	}
+	r.Set("long_identities", []int{len(longIDs[0]), len(longIDs[1]), len(longIDs[2])})
+	r.Set("case_variant_identities", []string{string(caseIDs[0]), string(caseIDs[1]), string(caseIDs[2])})
+}
+
+func phaseIdentitySet(r *ev.Run, k *checker, all []envl.Revealer, controls *int, strictPub bool, set string) {
+	saved := ids
+	ids, idSet = idSets[set], set
+	defer func() { ids, idSet = saved, "" }()
 	for _, f := range []string{fmtV1, fmtV2Mem} {
 		if r.Expired() {
-			r.Capped("long identities: " + f + " not run")
+			r.Capped(set + " identities: " + f + " not run")
 			return
 		}
-		w := buildWorld("long-ids", f, [3]int{0, 0, 0}, true)
+		w := buildWorld(set+"-ids", f, [3]int{0, 0, 0}, true)
 		cases, inputs := k.casesOf(w, all, controls)
 		for i := range cases {
-			cases[i].IDSet = "long"
+			cases[i].IDSet = set
 		}
 		r.States(inputs)
 		done := par.Do(len(cases), r.Expired, func(i int) { k.eval(w, cases[i]) })
 		if done < len(cases) {
-			r.Capped("long identities: reveal matrix partial")
+			r.Capped(set + " identities: reveal matrix partial")
 		}
 		if f == fmtV1 {
 			newV1Relocator(r, w, strictPub).run(nil)
@@ -56,5 +70,4 @@ func phaseLongIdentities(r *ev.Run, k *checker, all []envl.Revealer, controls *i
 		}
 		w.Close()
 	}
-	r.Set("long_identities", []int{len(longIDs[0]), len(longIDs[1]), len(longIDs[2])})
 }
